@@ -84,7 +84,10 @@ func runC13(e *Env) {
 		"arguments are host paths the filesystem handed out earlier in the session (MkdirTemp results, WalkDir callback paths, File.Name()) with a suffix " +
 		"(mostly as many '..' as lead to the directory above the base, then a name that exists there), literals built from the host base directory, or short literals: " +
 		"a quarter of the calls through a VirtualOS that mounts the filesystem at '/'; " +
-		"a case is (base spelling, where the referenced handed-out paths came from, the last three calls, the call and its route), all non-trivial"
+		"a case is (base spelling, where the referenced handed-out paths came from, the last three calls, the call and its route), all non-trivial; " +
+		"LINK SESSIONS on one rooted local filesystem over a real tree (absolute base and relative spellings): 10-14 calls with plain (sometimes decorated) in-base paths — " +
+		"Symlink(file/dir/link/missing name, dir/name), Rename (mostly of a link or of a directory that contains links, to a place at another depth), Remove/RemoveAll, " +
+		"and reads/WriteFile mostly through a link; a quarter through a VirtualOS mount; a case is (base spelling, the last four calls, the call and its route), all non-trivial"
 	maxSeg := 4
 	if !e.Quick {
 		maxSeg = 6
@@ -120,6 +123,7 @@ func runC13(e *Env) {
 	c13TwoPath(e, paths)
 	c13LocalFS(e, paths)
 	c13Handed(e)
+	c13Links(e)
 }
 
 // 1. filepath.Clean / Join vs the model's cleanStr / join2 (ties the hand-written model
